@@ -8,7 +8,7 @@ from ..cfg import NORMAL, Node, handler_classes
 from ..core import Ctx
 from ..flow import names_in
 from ..model import AnalysisError, FunctionInfo, norm_text
-from .common import (owner_tops, judged_in_callers, cleanup_in_reraising_handler, branch_nodes, edge_target, escaping_after, handler_always_raises, handler_exits, handler_key,
+from .common import (owner_tops, pure_guard, judged_in_callers, cleanup_in_reraising_handler, branch_nodes, edge_target, escaping_after, handler_always_raises, handler_exits, handler_key,
                      handler_nodes, hint_write_nodes, hint_writers, in_handler, is_const, kwarg,
                      normal_continuation, reachable_from)
 
@@ -421,6 +421,8 @@ def r5(ctx: Ctx) -> None:
                     reason = reason or SWALLOW_OK.get((ctx.prog.anchor(o), k[1]))
             if reason is None and cleanup_in_reraising_handler(ctx, f, hn):
                 reason = "best-effort cleanup nested in a handler that re-raises the original error on every path"
+            if reason is None and pure_guard(ctx, f, hn):
+                reason = "guards a pure computation (builtins only, value errors only): no storage / parse failure can be hidden"
             ctx.ob("C04.R5", f, handler_key(ctx, f, hn), hn, reason is not None,
                    (f"allow-listed: {reason}" if reason else
                     f"handler can complete normally (error swallowed / default substituted) on the commit path; key={k}"),
